@@ -9,5 +9,7 @@ CONSTANTS
   AllowLeave = TRUE
   AllowRelease = TRUE
   TsFix = TRUE
+  Late = {}
+  NeedKnown = FALSE
   Depth = 16
 CHECK_DEADLOCK FALSE
